@@ -273,6 +273,10 @@ pub enum Op {
     ParseLine { line_hex: String },
     /// update_mmap / update_mmap_rayon / update_reader(File) on a special file kind
     FileKinds { kind: u8 },
+    /// a child process hashes a file while one system call on that file fails (strace -e inject=):
+    /// target 0 update_mmap, 1 update_mmap_rayon, 2 update_reader(File), 3 b3sum, 4 b3sum --no-mmap;
+    /// syscall 0 mmap, 1 lseek, 2 read; errno index; `when` = which matching call fails
+    SysFault { target: u8, data: usize, syscall: u8, errno: u8, when: u32 },
 
     /// one direct kernel call with guard-placed buffers and register sentinels (C07)
     Kernel { k: usize, a: KArgs },
@@ -299,6 +303,7 @@ impl Op {
             Op::ParseMutations { .. } => "ParseMutations",
             Op::ParseLine { .. } => "ParseLine",
             Op::FileKinds { .. } => "FileKinds",
+            Op::SysFault { .. } => "SysFault",
             Op::NewHasher { .. } => "NewHasher",
             Op::Absorb { .. } => "Absorb",
             Op::Count { .. } => "Count",
